@@ -10,6 +10,7 @@ import (
 	"strings"
 	"sync"
 	"sync/atomic"
+	"unsafe"
 
 	"google.golang.org/protobuf/internal/descfmt"
 	"google.golang.org/protobuf/internal/descopts"
@@ -18,6 +19,7 @@ import (
 	"google.golang.org/protobuf/internal/genid"
 	"google.golang.org/protobuf/internal/pragma"
 	"google.golang.org/protobuf/internal/strs"
+	"google.golang.org/protobuf/internal/verifhook"
 	"google.golang.org/protobuf/reflect/protoreflect"
 )
 
@@ -167,11 +169,17 @@ func (fd *File) lazyInit() *FileL2 {
 }
 
 func (fd *File) lazyInitOnce() {
+	verifhook.Init(verifhook.FileDesc, unsafe.Pointer(fd), verifhook.Enter)
 	fd.mu.Lock()
+	verifhook.Init(verifhook.FileDesc, unsafe.Pointer(fd), verifhook.Locked)
 	if fd.L2 == nil {
+		verifhook.Init(verifhook.FileDesc, unsafe.Pointer(fd), verifhook.RecheckMiss)
 		fd.lazyRawInit() // recursively initializes all L2 structures
+		verifhook.Init(verifhook.FileDesc, unsafe.Pointer(fd), verifhook.BodyDone)
 	}
 	atomic.StoreUint32(&fd.once, 1)
+	verifhook.Init(verifhook.FileDesc, unsafe.Pointer(fd), verifhook.Stored)
+	verifhook.Init(verifhook.FileDesc, unsafe.Pointer(fd), verifhook.Unlocking)
 	fd.mu.Unlock()
 }
 
